@@ -32,6 +32,11 @@ var c02Defects = []string{
 	// a sub-resource selector is added to the query of a signed request, in a clean spelling and in spellings
 	// that a strict query parser drops and a lenient one keeps (";", a malformed escape)
 	"query-subresource-added",
+	// signed with a wrong secret, and bytes follow the end of the aws-chunked body (a decoder that stops at its
+	// own end of stream must still let the deferred request authentication run)
+	"wrong-secret-junk-after-body",
+	// a presigned URL dated in the future, outside the window in which requests are accepted
+	"presign-date-future",
 }
 
 type c02Prog struct {
@@ -90,6 +95,8 @@ func c02DefectApplies(d string, r routes.Route, mode string, hasBody bool) bool 
 		return hasBody && (mode == s3c.ModeSigned)
 	case "chunk-data-altered", "chunk-sig-altered", "chunk-sig-emptied":
 		return r.Streams && (mode == s3c.ModeChunked || mode == s3c.ModeChunkedTrailer)
+	case "wrong-secret-junk-after-body":
+		return r.Streams && (mode == s3c.ModeChunked || mode == s3c.ModeChunkedTrailer || mode == s3c.ModeUnsignedTrailer)
 	case "trailer-altered":
 		return r.Streams && mode == s3c.ModeChunkedTrailer
 	case "path-altered", "query-subresource-added":
@@ -113,6 +120,10 @@ func (c02) Gen(seed uint64, run int, tier string) *core.Case {
 		p.Mode = s3c.ModeSigned
 	case "chunk-data-altered", "chunk-sig-altered", "chunk-sig-emptied":
 		p.Mode = []string{s3c.ModeChunked, s3c.ModeChunkedTrailer}[r.IntN(2)]
+	case "wrong-secret-junk-after-body":
+		p.Mode = []string{s3c.ModeChunked, s3c.ModeChunkedTrailer, s3c.ModeUnsignedTrailer, s3c.ModeUnsignedTrailer}[r.IntN(4)]
+	case "presign-date-future":
+		p.Mode = s3c.ModePresign
 	case "trailer-altered":
 		p.Mode = s3c.ModeChunkedTrailer
 	}
@@ -210,7 +221,7 @@ func c02Apply(e *env.Env, fx *routes.Fixture, rt *routes.Route, p *c02Prog) (sg 
 	switch p.Defect {
 	case "unknown-key":
 		rq.Access, rq.Secret = "NOSUCHACCESSKEY00001", "whatever-secret-000000"
-	case "wrong-secret", "presign-wrong-secret":
+	case "wrong-secret", "presign-wrong-secret", "wrong-secret-junk-after-body":
 		rq.Access, rq.Secret = gw.RootAccess, "this-is-not-the-root-secret-0000000000"
 	case "rotated-secret", "presign-rotated-secret":
 		adm := fx.AdminC
@@ -256,6 +267,11 @@ func c02Apply(e *env.Env, fx *routes.Fixture, rt *routes.Route, p *c02Prog) (sg 
 		rq.Time = e.S.Now().Add(-20 * time.Minute)
 		rq.Expires = 600
 		e.S.FaultsFired["skew"]++
+	case "presign-date-future":
+		// correctly signed for a date far ahead: not yet valid (whatever X-Amz-Expires says)
+		rq.Time = e.S.Now().Add(time.Duration([]int{2, 24, 24 * 365}[p.Pick%3]) * time.Hour)
+		rq.Expires = 600
+		e.S.FaultsFired["skew"]++
 	}
 	sg = cl.Sign(rq)
 	auth := sg.GetHeader("Authorization")
@@ -284,6 +300,11 @@ func c02Apply(e *env.Env, fx *routes.Fixture, rt *routes.Route, p *c02Prog) (sg 
 		sg.SetHeader("Authorization", string(b))
 	case "signed-header-altered":
 		sg.SetHeader("X-Amz-Probe", "altered-value")
+	case "wrong-secret-junk-after-body":
+		if len(sg.Body) == 0 {
+			return nil, nil, false
+		}
+		sg.Body = append(append([]byte{}, sg.Body...), []byte([]string{"X", "\r\n", "0\r\n\r\n", strings.Repeat("junk", 64)}[p.Pick%4])...)
 	case "query-altered":
 		if strings.Contains(sg.Target, "?") {
 			sg.Target += "&zz-extra=1"
@@ -551,7 +572,7 @@ func (c02) Exec(c *core.Case) (out *core.Outcome) {
 // c02DefectClass groups defects by what the server would have to verify.
 func c02DefectClass(d string) string {
 	switch d {
-	case "wrong-secret", "sig-digit", "signed-header-altered", "query-altered", "path-altered", "payload-altered",
+	case "wrong-secret", "wrong-secret-junk-after-body", "sig-digit", "signed-header-altered", "query-altered", "path-altered", "payload-altered",
 		"presign-wrong-secret", "presign-sig-digit", "presign-param-altered", "presign-expires-altered", "scope-date", "scope-service", "scope-terminator",
 		"presign-dup-arg-first", "query-dup-arg-first", "rotated-secret", "presign-rotated-secret":
 		return "signature-not-verified"
